@@ -35,25 +35,23 @@ ASSUMPTIONS = ["NoOverflow: every table entry fits int32 (|matrix|,|gap| <= 6 an
                "the pseudo -inf of the affine tables is modelled as `none`"]
 TECHNIQUE = ("Lean 4 proof (induction over alignment columns against a two-dimensional recurrence; refinement of the "
              "row-by-row table to the recurrence) + verified checker run on every actual output + correspondence")
-LEVEL_TEXT = ("proof, for every matrix / sequence pair, no length bound (43 theorems): "
-              "LINEAR and AFFINE gap penalties in all three modes (global, semi-global, local): no valid alignment "
-              "(affine: without abutting gaps, where a FREE terminal gap also counts as a gap: C08_noabut_covers_free_terminal_gaps "
-              "shows the class is strictly smaller than all end-to-end alignments for terminal_penalty=False) has a public align.score() above the optimum and some valid alignment "
-              "attains it (C08_upper_pub_lin/_aff need gap <= 0 only for local; C08_attained_pub_lin/_aff), incl. open<ext "
-              "and zeros; align.score(terminal_penalty=False) = positional form on valid alignments "
-              "(C08_scorePub_semi[_aff]); the row-by-row tables equal the recurrences (C08_table_lin/_aff, prefix form "
-              "C08_table_lin_prefix/_aff_prefix) and the reported score is the optimum (C08_reported_lin/_aff); full "
-              "checker soundness for linear and affine (C08_checker_sound_lin/_aff), run on every actual output; "
-              "traceback on the model: LINEAR (get_trace_linear bits + follow_trace): every yielded trace is valid and "
-              "scores the optimum (C08_traces_valid, _valid_local), pairwise distinct (C08_traces_distinct, "
-              "_distinct_start), <= max_number (C08_traces_count), non-empty; LOCAL as one theorem over all start cells "
-              "(C08_traces_local: valid, optimal, non-empty entries distinct, <= max_number, non-empty list); the driver's "
-              "table-lookup run equals the recurrence run (C08_traces_lookup); AFFINE three-state follow_trace model, "
-              "global and semi-global: every yielded trace is valid, non-abutting and scores optAff "
-              "(C08_traces_valid_aff), <= max_number (C08_traces_count_aff).  Every real trace must be a member of the "
-              "model's trace list (linear and affine, all modes, capped at 300 paths).  PARTIAL: affine LOCAL traceback "
-              "and distinctness of the affine model's traces are not theorems (per-output checker + membership + count "
-              "model only); followG over affLookup = over the recurrence is not proved for affine")
+LEVEL_TEXT = ("proof, for every matrix / sequence pair, no length bound (48 theorems).  HEADLINE, one statement per gap kind, "
+              "about the model of align_optimal (alignOptimalModel: table fill + reported score + start selection + "
+              "traceback + [:max_number]): C08_align_optimal_lin (g <= 0, all three modes): the reported score is the "
+              "maximum of the public align.score() over all valid alignments of the mode (upper bound + attained), every "
+              "returned alignment is valid and scores it, non-empty results are pairwise distinct, at most max_number are "
+              "returned and at least one is; C08_align_optimal_aff (open, ext <= 0 incl. open<ext and zeros, all three "
+              "modes): the same over valid alignments in which a gap in one sequence never directly abuts a gap in the "
+              "other (a FREE terminal gap counts as a gap: C08_noabut_covers_free_terminal_gaps), except non-emptiness. "
+              "Components: C08_upper/attained_pub_lin/_aff, C08_scorePub_semi[_aff] (terminal_penalty=False slice = "
+              "positional form), C08_table_lin/_aff (+ prefix forms), C08_reported_lin/_aff, checker soundness "
+              "C08_checker_sound_lin/_aff (run on every actual output), traceback C08_traces_valid / _valid_aff / "
+              "_local / _local_aff, distinctness C08_traces_distinct / _distinct_aff (the state of a node is the kind "
+              "of the column entering it, so different state paths spell different columns), counts, lookup = "
+              "recurrence C08_traces_lookup / _lookup_aff.  Tie to the code: reported score, number of traces and "
+              "membership of every real trace in alignOptimalModel's list on every case.  PARTIAL: non-emptiness of "
+              "the affine result list is not a theorem; int32 = Z under NoOverflow and pseudo -inf = none are "
+              "assumptions of the correspondence (known finding at the int32 bound)")
 LEVEL_NOTE = ("trusted: Lean kernel, line-protocol driver, generators; int32 arithmetic modelled as Z under NoOverflow "
               "(pseudo -inf of the affine tables = none); the traceback theorems are about followLin over Rec.val, the "
               "driver runs followLin over a lookup into the table proved equal to Rec.val (C08_table_lin)")
